@@ -58,11 +58,11 @@ SPEC = {
     'timeout': {'quick': 420, 'thorough': 2400},
     'case_timeout': 60,
     'classify_crash': classify_crash,
-    'rule': '16 fixed witness/regression cases, then seeded random cases: vector sets (dimension 1..6, up to 16 (quick) / 40 (thorough) vectors; '
-            'duplicates, shifts straddling both tolerances, corner-only and face-tied vectors, midpoints, magnitudes 2^22) through dominates, extractDominated, '
-            'extractDominatedIncremental (raw and pre-pruned old part) and Pruner; point surfaces (dimension 1..5, 0..6/10 points, zero coordinates, '
-            'query equal to a stored point, corner queries, unhelpful points) through LPInterpolation and sawtoothInterpolation. '
-            'non-trivial = at least two vectors / at least one stored point; distinct by protocol line',
+    'rule': '18 fixed witness/regression cases, then 2500 (quick) / 12000 (thorough) seeded random cases: vector sets (dimension 1..6, up to 16 / 40 vectors; '
+            'duplicates, shifts straddling both tolerances, corner-only and face-tied vectors, midpoints, magnitudes 2^22) through dominates, findBestAt*, '
+            'extractDominated, extractDominatedIncremental (raw and pre-pruned old part) and Pruner; point surfaces (dimension 1..5, 0..6/10 points, zero '
+            'coordinates, coordinates of size 2^-21 / 2^-19, query equal to a stored point, corner queries, unhelpful points, magnitudes 2^20) through '
+            'LPInterpolation and sawtoothInterpolation. non-trivial = at least two vectors / at least one stored point; distinct by protocol line',
     'modelled': ['include/AIToolbox/Utils/Polytope.hpp: dominates, findBestAtPoint, findBestAtSimplexCorner, extractBestAtPoint, extractBestAtSimplexCorners',
                  'include/AIToolbox/Utils/Prune.hpp: extractDominated, extractDominatedIncremental, Pruner::operator() (witness LP = oracle replayed from a recorded trace)',
                  'src/Utils/Polytope.cpp: LPInterpolation (LP = oracle read back from the returned weights), sawtoothInterpolation'],
